@@ -5,6 +5,7 @@ use serde_json::{json, Value};
 use std::collections::BTreeMap;
 
 pub mod c09;
+pub mod c12;
 pub mod c18;
 pub mod c28;
 pub mod c30;
@@ -97,6 +98,7 @@ pub trait Check {
 pub fn make(id: &str) -> Option<Box<dyn Check>> {
     match id {
         "C09" => Some(Box::new(c09::C09::new())),
+        "C12" => Some(Box::new(c12::C12::new())),
         "C18" => Some(Box::new(c18::C18::new())),
         "C28" => Some(Box::new(c28::C28::new())),
         "C30" => Some(Box::new(c30::C30::new())),
